@@ -129,6 +129,54 @@ func (g *gen) fragScenario(w *world) {
 			l.deliver(true)
 		}
 	}
+	// a fragmented message of a kind that is handled before the data path (an error message, as
+	// libotr fragments them): processed once when complete, never again because of later fragments
+	if w.dead {
+		return
+	}
+	sa := otr3.VerifSnapshot(a.c)
+	tail := g.cleanText()
+	for i := range tail { // no comma: it would end the piece early
+		if tail[i] == ',' {
+			tail[i] = ';'
+		}
+	}
+	whole := []byte("?OTR Error: something went wrong on the other side " + string(tail))
+	k := 2 + g.r.Intn(3)
+	var pieces [][]byte
+	for i := 0; i < k; i++ {
+		part := whole[i*len(whole)/k : (i+1)*len(whole)/k]
+		if version == 3 {
+			pieces = append(pieces, []byte(fmt.Sprintf("?OTR|%08x|%08x,%05d,%05d,%s,", sa.OurTag, sa.TheirTag, i+1, k, part)))
+		} else {
+			pieces = append(pieces, []byte(fmt.Sprintf("?OTR,%05d,%05d,%s,", i+1, k, part)))
+		}
+	}
+	events := 0
+	for _, p := range pieces {
+		w.recv(b, p)
+		if lastEvents != "[]" {
+			events++
+		}
+	}
+	olog.ok("C14")
+	if events != 1 {
+		olog.viol("C14", "fragmented-error-message-not-processed-once", fmt.Sprintf("OTRv%d: an error message in %d fragments raised events on %d of the deliveries", version, k, events))
+	}
+	for j := 0; j < 4 && !w.dead; j++ {
+		var bad []byte
+		ix, tot := []int{0, 3, 1, 0}[j], []int{2, 2, 0, 0}[j]
+		if version == 3 {
+			bad = []byte(fmt.Sprintf("?OTR|%08x|%08x,%05d,%05d,x,", sa.OurTag, sa.TheirTag, ix, tot))
+		} else {
+			bad = []byte(fmt.Sprintf("?OTR,%05d,%05d,x,", ix, tot))
+		}
+		_, ts, _, _ := w.recv(b, bad)
+		if lastEvents != "[]" || len(ts) > 0 {
+			olog.viol("C14", "processed-twice", fmt.Sprintf("OTRv%d: the illegal fragment %q after a completed fragmented error message caused events %s and %d messages to send", version, bad, lastEvents, len(ts)))
+			break
+		}
+	}
 }
 
 func (g *gen) injectHostileFragment(w *world, to, from *party, pieces []otr3.ValidMessage, i int, delivered map[string]int) {
@@ -161,6 +209,55 @@ func (g *gen) injectHostileFragment(w *world, to, from *party, pieces []otr3.Val
 	_ = bytes.Equal
 }
 
+
+// one message in more than 32767 pieces (index and total beyond the positive range of a signed
+// 16 bit number, still legal): one payload byte per piece
+func (g *gen) manyFragments(w *world) {
+	w.parties = map[string]*party{}
+	w.dead = false
+	version := 2 + g.r.Intn(2)
+	pol, hdr := 2, 17
+	if version == 3 {
+		pol, hdr = 4, 35
+	}
+	a := w.newParty(partyCfg{policies: pol, keyIdx: 0, errh: true})
+	b := w.newParty(partyCfg{policies: pol, keyIdx: 1, errh: true})
+	l := &link{w: w, a: a, b: b}
+	l.enqueue(a, []otr3.ValidMessage{w.query(a)})
+	l.settle(50)
+	if !a.c.IsEncrypted() || !b.c.IsEncrypted() {
+		return
+	}
+	size := hdr + 2
+	a.c.SetFragmentSize(uint16(size))
+	w.g.out.emit(fmt.Sprintf("setfrag %s %d", a.id, size), "ok")
+	text := make([]byte, 24600+g.r.Intn(300))
+	for i := range text {
+		text[i] = byte('a' + g.r.Intn(26))
+	}
+	pieces, err := w.send(a, text)
+	if err != nil || w.dead {
+		return
+	}
+	g.dist[fmt.Sprintf("frag:many-pieces:%dk", len(pieces)/1000)]++
+	delivered := 0
+	for _, p := range pieces {
+		plain, _, _, _ := w.recv(b, p)
+		if plain != nil {
+			delivered++
+			if !bytes.Equal(plain, text) {
+				olog.viol("C14", "lossy-or-duplicated", fmt.Sprintf("OTRv%d: a text of %d bytes sent in %d pieces arrived altered", version, len(text), len(pieces)))
+			}
+		}
+	}
+	olog.ok("C14")
+	olog.ok("C04")
+	if delivered != 1 {
+		olog.viol("C14", "lossy-or-duplicated", fmt.Sprintf("OTRv%d: a text of %d bytes sent in %d pieces (fragment size %d) was delivered %d times", version, len(text), len(pieces), size, delivered))
+		olog.viol("C04", "text-not-delivered-exactly-once", fmt.Sprintf("OTRv%d: a text of %d bytes sent in %d pieces (fragment size %d) was delivered %d times", version, len(text), len(pieces), size, delivered))
+	}
+}
+
 func init() {
 	profiles["frag"] = func(seed int64, n int, out *emitter, extra map[string]interface{}) map[string]int {
 		g := &gen{r: rand.New(rand.NewSource(seed)), out: out, dist: map[string]int{}}
@@ -171,6 +268,7 @@ func init() {
 			w.dead = false
 			g.fragScenario(w)
 		}
+		g.manyFragments(w)
 		extra["panics"] = panicCount
 		olog.export(extra)
 		return g.dist
